@@ -206,7 +206,18 @@ func c11Exec(calls []c11Call, refs []string, hist []int, c *choice.Ctx, allReuse
 	vsync.ResetPools()
 	var kept [][]byte
 	var keptDig []string
+	// live images returned by the decode calls (the objects themselves, re-read at the end)
+	type live struct {
+		read func() []byte
+		dig  string
+		pos  int
+	}
+	var lives []live
+	curPos := 0
+	liveHook = func(read func() []byte) { lives = append(lives, live{read, fw.Digest(read()), curPos}) }
+	defer func() { liveHook = nil }()
 	for pos, ci := range hist {
+		curPos = pos
 		out := calls[ci].run()
 		d := fw.Digest(out)
 		kept = append(kept, out)
@@ -224,13 +235,18 @@ func c11Exec(calls []c11Call, refs []string, hist []int, c *choice.Ctx, allReuse
 			return fmt.Sprintf("the result returned by call %d (%q) was modified by a later call", i, calls[hist[i]].name), vsync.TotalHits()
 		}
 	}
+	for _, l := range lives {
+		if fw.Digest(l.read()) != l.dig {
+			return fmt.Sprintf("the image returned by call %d (%q) was modified by a later call", l.pos, calls[hist[l.pos]].name), vsync.TotalHits()
+		}
+	}
 	return "", vsync.TotalHits()
 }
 
 func init() {
 	fw.Register(&fw.Check{
 		ID: "C11", Level: "model_checking", Shards: shards16,
-		Rule:   "history DFS on the real code with an explorable pool: every ordered pair (thorough: triple over a 12-call core) of public API calls from a 40-call alphabet (codecs, equal/greater/smaller macroblock counts, options that must be reset on reuse, methods, alpha, dithering, source types, decodes of encoder-made and of generator-made files whose headers carry fields no encoder writes, failing decodes of truncated files, animation) x every assignment of pooled objects to Pool.Get calls with at most 1 (thorough 2) reuse events, plus the all-most-recent schedule; oracle: every result equals the same call's result as the first call of a fresh process (computed in child processes) and results already returned are unchanged; a history is non-trivial only if a Get was served from a pool",
+		Rule:   "history DFS on the real code with an explorable pool: every ordered pair (thorough: triple over a 12-call core) of public API calls from a 40-call alphabet (codecs, equal/greater/smaller macroblock counts, options that must be reset on reuse, methods, alpha, dithering, source types, decodes of encoder-made and of generator-made files whose headers carry fields no encoder writes, failing decodes of truncated files, animation) x every assignment of pooled objects to Pool.Get calls with at most 1 (thorough 2) reuse events, plus the all-most-recent schedule; oracle: every result equals the same call's result as the first call of a fresh process (computed in child processes) and results already returned - byte slices, and the live image objects handed out by Decode, re-read after the later calls - are unchanged; a history is non-trivial only if a Get was served from a pool",
 		Assume: []string{"worker count pinned to 1 (C12 studies worker counts)", "vsync.Pool replaces sync.Pool: the runtime's per-P caches and GC clearing are nondeterminism the harness owns"},
 		Run: func(e *fw.Env, r *fw.Result) {
 			calls := c11Alphabet(e.Seed)
